@@ -1,7 +1,7 @@
 """G4 - the parse tree is read-only during compilation (mutation census, E7)."""
 import ast
 
-from ..engine.loader import norm_text, walk_local, FUNC_TYPES
+from ..engine.loader import public_qual, norm_text, walk_local, FUNC_TYPES
 
 PHASE_MODULES = ("compiler", "insns", "metacommands", "metacommand_impl", "operators", "types", "formats", "builtins")
 
@@ -96,7 +96,7 @@ def rule_G4(ck, modules=None, floor=5):
         ck.unknown(f"token class hierarchy not recognised ({len(toks)} classes, {len(fields)} fields)")
     stores = [x for x in census(repo) if modules is None or x[0].split('::')[0] in modules]
     for q, n, recv, attr, kind in stores:
-        why = EXCEPTIONS.get((q, attr))
+        why = EXCEPTIONS.get((q, attr)) or next((EXCEPTIONS[(o, attr)] for o in ck._owners(public_qual(q)) if (o, attr) in EXCEPTIONS), None)
         idem = IDEMPOTENT_FUNCS.get(q)
         verdict = "exception: " + why if why else ("exception: " + idem if idem else ("tree field" if attr in fields else "not a tree field"))
         ck.instance(("store", q, recv, attr), {"function": q, "store": norm_text(n)[:90], "verdict": verdict}, fn=q)
